@@ -5,7 +5,7 @@
    itself, conditional on two hypotheses that the harness monitors on the real code in every run:
    H_lex_split (the tokens of P++D are the tokens of P followed by the shifted tokens of D) and
    H_rules_local (every enabled struct rule is paragraph-local).  Hence `_partial`. *)
-Require Import Base Overlap ParaSplit ParaSplitProofs.
+Require Import Base Overlap Tables_lexer Lexer Condense ParaSplit ParaSplitProofs LexSplitProofs.
 From Coq Require Import Sorting.Permutation.
 
 (* the index arithmetic of iter_chunks / iter_sentences / iter_paragraphs never slices out of range and
@@ -163,6 +163,60 @@ Check C12_edit_corollary_partial : forall (tokens : text -> list tok) (premise :
       exists R, Permutation (lints tokens chunk_fn rules (P ++ D)) (LP ++ map (shift_lint (length P)) R).
 Print Assumptions C12_edit_corollary_partial.
 
+(* ---------- the lexer half of H_lex_split, for the lexer model of C02 (Model/Lexer.v) ---------- *)
+(* no sub-lexer's answer at a position depends on anything behind the first newline that follows it: for a
+   non-empty newline-free a, lex_token on a ++ "\n" ++ r is the same for every r and the token ends inside a.
+   The only Unicode facts used are about the newline character itself (monitored). *)
+Theorem C12_lex_token_local : forall u,
+  u_whitespace u NL = true -> u_numeric u NL = false -> u_alphabetic u NL = false -> u_lingual u NL = false ->
+  forall a r r' : list N, nonl a -> a <> [] ->
+    lex_token u (a ++ NL :: r) = lex_token u (a ++ NL :: r') /\
+    forall n k, lex_token u (a ++ NL :: r) = Some (n, k) -> n <= length a.
+Proof. exact lex_token_local. Qed.
+Check C12_lex_token_local : forall u,
+  u_whitespace u NL = true -> u_numeric u NL = false -> u_alphabetic u NL = false -> u_lingual u NL = false ->
+  forall a r r' : list N, nonl a -> a <> [] ->
+    lex_token u (a ++ NL :: r) = lex_token u (a ++ NL :: r') /\
+    forall n k, lex_token u (a ++ NL :: r) = Some (n, k) -> n <= length a.
+Print Assumptions C12_lex_token_local.
+
+(* PlainEnglish::parse never panics, and for P ending in a newline and D not starting with one the tokens
+   of P ++ D are the tokens of P followed by the tokens of D moved by |P| (no quote premise needed here) *)
+Theorem C12_lex_split : forall u,
+  u_whitespace u NL = true -> u_numeric u NL = false -> u_alphabetic u NL = false -> u_lingual u NL = false ->
+  forall P D : text, ends_nl P -> no_leading_nl D ->
+    exists tp td,
+      plain_parse u P = Ok tp /\ plain_parse u D = Ok td /\
+      plain_parse u (P ++ D) = Ok (tp ++ map (shift_token (length P)) td).
+Proof. exact plain_parse_split. Qed.
+Check C12_lex_split : forall u,
+  u_whitespace u NL = true -> u_numeric u NL = false -> u_alphabetic u NL = false -> u_lingual u NL = false ->
+  forall P D : text, ends_nl P -> no_leading_nl D ->
+    exists tp td,
+      plain_parse u P = Ok tp /\ plain_parse u D = Ok td /\
+      plain_parse u (P ++ D) = Ok (tp ++ map (shift_token (length P)) td).
+Print Assumptions C12_lex_split.
+
+(* the property for the real lexer model: what remains assumed is condense_split (the passes of
+   Document::parse commute with the split of the raw tokens; monitored at document level) and the locality
+   of the struct rules *)
+Theorem C12_main_lexer_partial : forall u,
+  u_whitespace u NL = true -> u_numeric u NL = false -> u_alphabetic u NL = false -> u_lingual u NL = false ->
+  forall chunk_fn rules, condense_split u -> Forall para_local rules ->
+  forall P D, c12_premise P -> no_leading_nl D ->
+    Permutation (lints (doc_tokens u) chunk_fn rules (P ++ D))
+                (lints (doc_tokens u) chunk_fn rules P
+                 ++ map (shift_lint (length P)) (lints (doc_tokens u) chunk_fn rules D)).
+Proof. exact main_lexer_partial. Qed.
+Check C12_main_lexer_partial : forall u,
+  u_whitespace u NL = true -> u_numeric u NL = false -> u_alphabetic u NL = false -> u_lingual u NL = false ->
+  forall chunk_fn rules, condense_split u -> Forall para_local rules ->
+  forall P D, c12_premise P -> no_leading_nl D ->
+    Permutation (lints (doc_tokens u) chunk_fn rules (P ++ D))
+                (lints (doc_tokens u) chunk_fn rules P
+                 ++ map (shift_lint (length P)) (lints (doc_tokens u) chunk_fn rules D)).
+Print Assumptions C12_main_lexer_partial.
+
 (* ---------- non-vacuity ---------- *)
 (* "Hi, yo. <break> So? No" : kinds W , S W . B W ? S W with spans tiling 0..17 *)
 Definition ex_A : list tok :=
@@ -204,4 +258,43 @@ Proof.
   cbv zeta. split; [intros P D _ _; apply toy_split|]. split; [exact toy_P_tokens|].
   split; [repeat constructor; [apply schema_local|apply window_local; lia]|].
   split; [exists [72; 105]%N; reflexivity|vm_compute; reflexivity].
+Qed.
+
+(* an ASCII-only instance of the Unicode record: the four facts about the newline hold, and on
+   P = "It's $5. e.g.\n\n", D = "x@y.z 7th \"q\"" the lexer and the passes of Document::parse split as stated *)
+Definition ascii_uni : uni :=
+  mkuni (fun c => mem_n c [9; 10; 11; 12; 13; 32]%N) is_ascii_digit is_ascii_alphabetic is_ascii_alphabetic.
+Definition ex_P : text := [73; 116; 39; 115; 32; 36; 53; 46; 32; 101; 46; 103; 46; 10; 10]%N.
+Definition ex_D : text := [120; 64; 121; 46; 122; 32; 55; 116; 104; 32; 34; 113; 34]%N.
+
+Example C12_lex_split_nonvacuous :
+  u_whitespace ascii_uni NL = true /\ u_numeric ascii_uni NL = false /\
+  u_alphabetic ascii_uni NL = false /\ u_lingual ascii_uni NL = false /\
+  ends_nl ex_P /\ no_leading_nl ex_D /\ c12_premise ex_P /\
+  (exists tp td A B,
+     plain_parse ascii_uni ex_P = Ok tp /\ plain_parse ascii_uni ex_D = Ok td /\
+     length tp = 13 /\ length td = 8 /\
+     plain_parse ascii_uni (ex_P ++ ex_D) = Ok (tp ++ map (shift_token (length ex_P)) td) /\
+     document_passes ex_P tp = Ok A /\ document_passes ex_D td = Ok B /\ length A = 8 /\ length B = 7 /\
+     document_passes (ex_P ++ ex_D) (tp ++ map (shift_token (length ex_P)) td)
+       = Ok (A ++ map (shift_token2 (length ex_P) (length A)) B) /\
+     ends_in_break (map to_ps A) /\ in_bounds (length ex_P) (map to_ps A)).
+Proof.
+  repeat (split; [reflexivity|]).
+  split; [right; exists (firstn 14 ex_P); reflexivity|].
+  split; [cbn; discriminate|].
+  split; [split; [repeat constructor|exists (firstn 12 ex_P), 46%N; split; [reflexivity|now left]]|].
+  eexists. eexists. eexists. eexists.
+  split; [vm_compute; reflexivity|]. split; [vm_compute; reflexivity|].
+  split; [reflexivity|]. split; [reflexivity|].
+  split; [vm_compute; reflexivity|].
+  split; [vm_compute; reflexivity|]. split; [vm_compute; reflexivity|].
+  split; [reflexivity|]. split; [reflexivity|].
+  split; [vm_compute; reflexivity|].
+  split.
+  - match goal with |- ends_in_break ?l =>
+      let l' := eval vm_compute in l in
+      exists (removelast l'), (last l' (ParaSplit.mktok (mkspan 0 0) KOther)) end.
+    split; vm_compute; reflexivity.
+  - vm_compute. repeat constructor.
 Qed.
